@@ -40,7 +40,8 @@ pub enum Tok {
     Eos,
     Flt(f64),
     Int(i64),
-    Name(Vec<u8>),
+    /// the text is the token's source span
+    Name,
     Str(Vec<u8>),
     Char(u8),
 }
@@ -70,6 +71,38 @@ pub const RESERVED: [(&str, Tok); 22] = [
     ("while", Tok::While),
 ];
 
+#[inline]
+fn reserved(s: &[u8]) -> Option<Tok> {
+    if s.len() < 2 || s.len() > 8 || !s[0].is_ascii_lowercase() {
+        return None;
+    }
+    Some(match s {
+        b"and" => Tok::And,
+        b"break" => Tok::Break,
+        b"do" => Tok::Do,
+        b"else" => Tok::Else,
+        b"elseif" => Tok::Elseif,
+        b"end" => Tok::End,
+        b"false" => Tok::False,
+        b"for" => Tok::For,
+        b"function" => Tok::Function,
+        b"goto" => Tok::Goto,
+        b"if" => Tok::If,
+        b"in" => Tok::In,
+        b"local" => Tok::Local,
+        b"nil" => Tok::Nil,
+        b"not" => Tok::Not,
+        b"or" => Tok::Or,
+        b"repeat" => Tok::Repeat,
+        b"return" => Tok::Return,
+        b"then" => Tok::Then,
+        b"true" => Tok::True,
+        b"until" => Tok::Until,
+        b"while" => Tok::While,
+        _ => return None,
+    })
+}
+
 pub struct LexError {
     pub line: u32,
     pub msg: String,
@@ -89,9 +122,6 @@ const EOZ: i32 = -1;
 
 fn is_lalpha(c: i32) -> bool {
     c >= 0 && ((c as u8).is_ascii_alphabetic() || c as u8 == b'_')
-}
-fn is_lalnum(c: i32) -> bool {
-    c >= 0 && ((c as u8).is_ascii_alphanumeric() || c as u8 == b'_')
 }
 fn is_digit(c: i32) -> bool {
     c >= 0 && (c as u8).is_ascii_digit()
@@ -129,7 +159,7 @@ pub fn token2str(t: &Tok) -> String {
         Tok::Eos => "<eof>".into(),
         Tok::Flt(_) => "<number>".into(),
         Tok::Int(_) => "<integer>".into(),
-        Tok::Name(_) => "<name>".into(),
+        Tok::Name => "<name>".into(),
         Tok::Str(_) => "<string>".into(),
         other => {
             for (s, t) in RESERVED.iter() {
@@ -145,6 +175,9 @@ pub fn token2str(t: &Tok) -> String {
 impl<'a> Lexer<'a> {
     pub fn new(src: &'a [u8], skip_hash_line: bool) -> Lexer<'a> {
         let mut lx = Lexer { src, pos: 0, cur: EOZ, line: 1, buf: Vec::new(), tok_start: 0 };
+        if skip_hash_line && src.starts_with(&[0xEF, 0xBB, 0xBF]) {
+            lx.pos = 3; // luaL_loadfilex skips a UTF-8 byte order mark
+        }
         lx.next_char();
         // skip a first-line comment starting with '#' (as luaL_loadfilex does)
         if skip_hash_line && lx.cur == b'#' as i32 {
@@ -479,7 +512,12 @@ impl<'a> Lexer<'a> {
             self.tok_start = self.idx();
             match self.cur {
                 10 | 13 => self.inc_line(),
-                32 | 12 | 9 | 11 => self.next_char(),
+                32 | 12 | 9 | 11 => {
+                    while self.pos < self.src.len() && matches!(self.src[self.pos], 32 | 9) {
+                        self.pos += 1;
+                    }
+                    self.next_char();
+                }
                 45 => {
                     // '-'
                     self.next_char();
@@ -566,18 +604,23 @@ impl<'a> Lexer<'a> {
                 EOZ => return Ok(Tok::Eos),
                 c => {
                     if is_lalpha(c) {
-                        loop {
-                            self.save_and_next();
-                            if !is_lalnum(self.cur) {
+                        // scan the identifier directly in the source
+                        let start = self.pos - 1;
+                        let mut end = self.pos;
+                        while end < self.src.len() {
+                            let b = self.src[end];
+                            if b.is_ascii_alphanumeric() || b == b'_' {
+                                end += 1;
+                            } else {
                                 break;
                             }
                         }
-                        for (s, t) in RESERVED.iter() {
-                            if s.as_bytes() == &self.buf[..] {
-                                return Ok(t.clone());
-                            }
+                        self.pos = end;
+                        self.next_char();
+                        if let Some(t) = reserved(&self.src[start..end]) {
+                            return Ok(t);
                         }
-                        return Ok(Tok::Name(self.buf.clone()));
+                        return Ok(Tok::Name);
                     } else {
                         self.next_char();
                         return Ok(Tok::Char(c as u8));
@@ -603,7 +646,7 @@ impl<'a> Lexer<'a> {
         let end = end.min(self.src.len());
         let start = start.min(end);
         match t {
-            Tok::Name(_) | Tok::Flt(_) | Tok::Int(_) => {
+            Tok::Name | Tok::Flt(_) | Tok::Int(_) => {
                 format!("'{}'", String::from_utf8_lossy(&self.src[start..end]))
             }
             Tok::Str(s) => {
@@ -616,6 +659,10 @@ impl<'a> Lexer<'a> {
             }
             other => token2str(other),
         }
+    }
+
+    pub fn span(&self, start: usize, end: usize) -> &'a [u8] {
+        &self.src[start.min(self.src.len())..end.min(self.src.len())]
     }
 
     /// lex one token and report its source span
